@@ -107,6 +107,16 @@ Example C19_regression_import_error :
   = RaiseJ UnknownModuleError.
 Proof. exact import_error_is_unknown_module. Qed.
 
+(* finding C19-g: OUTSIDE the premise [getattr_documented] (object | AttributeError) -- a module whose module-level __getattr__
+   raises ModuleNotFoundError (PEP 562 lazy import of a missing optional dependency): the exception escapes from getattr,
+   where the Spec (the module has no such attribute) says ClassNotFoundError *)
+Theorem C19_refuted_lazy_getattr :
+  resolve Z Z Z w_import w_getattr_lazy (fun _ => true) (fun _ => Ok true) (fun _ => None) (fun _ => true) w_data
+  = RaiseF ModuleNotFoundError /\
+  full_spec Z Z Z w_import w_getattr_lazy (fun _ => true) (fun _ => Ok true) (fun _ => None) (fun _ => true) (tag_of [(JSON_TYPE_NAME, JStr [107; 46; 83])])
+  = RError EClassNotFound.
+Proof. exact lazy_getattr_escapes. Qed.
+
 (* regression example for the former finding C19-b (fixed by dd15a30): the tag "k.S", S a serialiser class without
    _from_json, in a documented world, now gives ClassNotDeserializableError (it was NotImplementedError) *)
 Example C19_regression_abstract_base :
@@ -154,3 +164,4 @@ Print Assumptions C19_identifies_problem.
 Print Assumptions C19_never_wrongly_typed.
 Print Assumptions C19_enclosing_is_spec.
 Print Assumptions C19_model_is_spec.
+Print Assumptions C19_refuted_lazy_getattr.
